@@ -16,16 +16,16 @@ CLAIMS = {
                 text='Lean theorems: eval_boundary / C04_no_runtime_panic / C04_offsets_on_boundaries / C04_values_on_boundaries for the whole evaluator (every state, error position, @position range and @string slice is on a UTF-8 boundary inside the input; advance never overruns), per-matcher boundary theorems, necessity of the ASCII guard. Tie: pegdiff with cfg assertion in advance + is_char_boundary on all observed offsets; exhaustive matcher table.',
                 tech='Lean 4 invariant proof (UTF-8 boundary invariant over the whole evaluator) + differential correspondence with guarded assertion'),
     'C05': dict(engine='pegdiff', ref='6 C05',
-                text='Lean theorem C05_transparent: any two sets of @memoize rules give the same acceptance, tree and consumed bytes for every grammar/rule/input (cache invariant CacheOk + refinement to the memo-free reference semantics + setMemo invariance); C05_fresh. Tie: pegdiff memo family (4 variants per grammar, impl-vs-impl and impl-vs-model) incl. directed groups: a @check-ed rule revisited at one offset, a rule reached at one offset from skipping and non-skipping callers.',
+                text='Lean theorem C05_transparent: any two sets of @memoize rules give the same acceptance, tree and consumed bytes for every grammar/rule/input (cache invariant CacheOk + refinement to the memo-free reference semantics + setMemo invariance); C05_fresh; C05_transparent_with_leftrec (grammars that also have @leftrec rules, memo markers outside the cycles, class LROk: both variants refine SpecLR). Tie: pegdiff memo family (4 variants per grammar, impl-vs-impl and impl-vs-model) incl. directed groups: a @check-ed rule revisited at one offset, a rule reached at one offset from skipping and non-skipping callers.',
                 tech='Lean 4 proof: cache invariant + refinement + determinism of the reference semantics; differential memo variants'),
-    'C07': dict(engine='pegdiff', ref='6 C07',
-                text='Lean theorems: C07_terminates (the grow loop needs at most remaining-length + 2 iterations; progress and the offset bound are proved for the real rule body), C07_longest_growth (the answer is the last element of a strictly growing chain of body results), C07_direct (shape A = A x | b: left-nested tree after exactly m+2 body evaluations, from semantic hypotheses), C07_usual_shape (the same from the SYNTAX of the grammar: rule A = l:*A xs | base…, xs/base reach no @memoize/@leftrec rule; greedy iteration stated in the reference semantics; each extension holds the previous result), C07_seed_replaced. Tie: pegdiff leftrec family (six shapes incl. nullable base alternatives, failing inputs, wrapper calling the rule twice at one offset) with a watchdog + an independent regex oracle for the usual shape (b x* greedy, nesting depth). Known finding K4 (leading whitespace before a @leftrec rule; proved at model level).',
+    'C07': dict(engine='pegdiff', ref='6 C07, 13.2',
+                text='Lean theorems: C07_terminates (the grow loop needs at most remaining-length + 2 iterations; progress and the offset bound are proved for the real rule body), C07_longest_growth (the answer is the last element of a strictly growing chain of body results), C07_direct (shape A = A x | b: left-nested tree after exactly m+2 body evaluations, from semantic hypotheses), C07_usual_shape (the same from the SYNTAX of the grammar: rule A = l:*A xs | base…, xs/base reach no @memoize/@leftrec rule; greedy iteration stated in the reference semantics; each extension holds the previous result), C07_result_is_the_growth (for the class LROk = the quantifier of the property, the model computes the answer of SpecLR, the reference semantics with the documented growth meaning of @leftrec), C07_extension_holds_previous, C07_seed_replaced. Tie: pegdiff leftrec family (six shapes incl. nullable base alternatives, failing inputs, wrapper calling the rule twice at one offset) with a watchdog + an independent regex oracle for the usual shape (b x* greedy, nesting depth). Known finding K4 (leading whitespace before a @leftrec rule; proved at model level).',
                 tech='Lean 4 proofs about the seed-and-grow loop (progress measure, run relation, shape lemma) + differential correspondence'),
     'C09': dict(engine='pegdiff', ref='6 C09',
                 text='Lean theorems: C09_range (range = entry/exit offsets, @string slice, also on cache hits), offsets monotone, C09_nested (all ranges inside the parent), C09_ordered (successive matches in consecutive intervals). Tie: pegdiff (positions are part of the compared tree; boundary/inside-input oracle on the implementation tree).',
                 tech='Lean 4 invariant proofs over the evaluator (ranges, monotone offsets, nesting) + differential correspondence'),
     'C11': dict(engine='unitdiff', ref='6 C11',
-                text='Lean theorems: C11_linecol (line = newlines before + 1, column = characters since the last newline + 1, printed line), totality with clamping (C11_any_position), caret under the column. Tie: unitdiff, exhaustive over all texts over {a, e-acute, newline, space} up to length 5 (quick) / 7 (thorough) x all boundary positions, Display output compared byte for byte with the model and with an independent oracle.',
+                text='Lean theorems: C11_linecol (line = newlines before + 1, column = characters since the last newline + 1, printed line), totality with clamping (C11_any_position), caret under the column. Tie: unitdiff, exhaustive over all texts over {a, e-acute, newline, space} up to length 5 (quick) / 7 (thorough) x all boundary positions, Display output compared byte for byte with the model and with an independent oracle, in three renderings: colours off, colours forced on (escape sequences stripped), and a build of the runtime without its `colored` feature.',
                 tech='Lean 4 proof about the model of PrettyParseError + exhaustive small-scope differential table'),
     'C13': dict(engine='pegdiff', ref='6 C13',
                 text='Lean theorems: C13_parsers_agree (parseAdvanced of the grammar with includes textually inlined = parseAdvanced of the original, as an equation: acceptance, tree, positions, error, cache), C13_types (same field descriptors), C13_in_context, C13_site. Tie: pegdiff incl family (grammar vs printed inlined twin, impl-vs-impl and impl-vs-model).',
